@@ -9,6 +9,8 @@ PROP = 'C13'
 
 
 def worker(chunk):
+    if chunk and chunk[0] == 'inflight':
+        return inflight_worker(chunk)
     acc = Acc()
     for (sc, bound, seed) in chunk:
         def run(prefix):
@@ -23,6 +25,71 @@ def worker(chunk):
                 acc.violation(csig(probs), sc, trim(choices), probs[:4])
     acc.sample({'scenario': chunk[0][0], 'deviation_bound': chunk[0][1],
                 'probe': 'every entry point, for every CA, 10 us and 6 ms after every bus frame and every 125 ms'})
+    return acc
+
+
+def inflight_one(dll, kind, aac, k, keep=False):
+    """a transfer is in flight when the CA loses its address (a lower NAME claims it right after the k-th bus frame): from the
+    moment that claim has been handed to the stack, nothing but address-claim frames may leave it with the lost source address"""
+    from .. import rt
+    from ..net import Bus, Stack, payload
+    w = rt.World()
+    rt.activate(w)
+    try:
+        bus = Bus(w, base_lat=1e-3)
+        X = Stack(bus, 'X', dll=dll, max_cmdt_packets=1)
+        Y = Stack(bus, 'Y', dll=dll, max_cmdt_packets=1)
+        cx = X.add_ca(0x80, name_value=(aac << 63) | 0x5000)
+        cy = Y.add_ca(0x20, name_value=0x6000)
+        seg = 7 if dll == 'j1939-21' else 60
+        w.run_for(0.01)
+        claim = ((6 << 26) | (0xEE << 16) | (0xFF << 8) | 0x80, bytes([1, 0, 0, 0, 0, 0, 0, 0]), False)
+        if k is not None:
+            bus.inject[k] = [claim]
+        data = list(payload(seg * 5 - 2, 0, 3))
+        if kind == 'bam':
+            cx.send_pgn(0, 0xFE, 0x31, 6, data)
+        elif kind == 'out':
+            cx.send_pgn(0, 0xD0, 0x20, 6, data)
+        else:
+            cy.send_pgn(0, 0xD0, 0x80, 6, data)
+        w.run_for(4.5)
+        probs = []
+        lost_at = None
+        for f in bus.log:
+            if f.injected:
+                got = [t for (t, idx) in X.rx_log if idx == f.idx]
+                lost_at = got[0] if got else None
+        if k is not None and lost_at is None:
+            probs.append("HARNESS: the contending claim was not delivered")
+        if lost_at is not None:
+            for f in bus.log:
+                if f.src == 'X' and f.sa == 0x80 and f.pf != 0xEE and f.t > lost_at + 1e-9:
+                    probs.append("a %s frame (PF %02X) left the stack from address 128 %.0f ms after its CA had lost that address to a lower NAME"
+                                 % ('transport' if f.pf in (0xEC, 0xEB, 0x4D, 0x4E) else 'data', f.pf, (f.t - lost_at) * 1e3))
+                    break
+        if X.job.exc is not None:
+            probs.append("job thread of X dead: %s" % X.job.exc_type)
+        return len(bus.log), probs, [f.brief() for f in bus.log] if keep else None
+    finally:
+        w.shutdown()
+
+
+def inflight_worker(item):
+    _k, dll, kind, aac, seed = item
+    acc = Acc()
+    n, probs, _ = inflight_one(dll, kind, aac, None)
+    if probs:
+        acc.violation("HARNESS: in-flight baseline not clean", {'part': 'inflight', 'dll': dll, 'kind': kind}, None, probs[:2])
+        return acc
+    for k in range(0, n - 1):
+        _n, probs, _ = inflight_one(dll, kind, aac, k)
+        sc = {'part': 'transfer in flight when the address is lost', 'dll': dll, 'kind': kind, 'aac': aac, 'after_frame': k}
+        acc.case(repr(sc), nontrivial=True, outcome=(dll, kind, aac, bool(probs)))
+        if probs:
+            import re
+            acc.violation(re.sub(r'\d+ ms', 'N ms', re.sub(r'PF [0-9A-F]+', 'PF ..', probs[0])), sc, None, probs[:3])
+    acc.sample({'part': 'transfer in flight when the address is lost', 'dll': dll, 'kind': kind, 'aac': aac, 'frames': n})
     return acc
 
 
@@ -76,9 +143,23 @@ def run(tier, seed):
     heavy = [[it] for it in items if it[1] > 0]
     light = [it for it in items if it[1] == 0]
     chunks = heavy + [light[i:i + 25] for i in range(0, len(light), 25)]
+    for dll in ('j1939-21', 'j1939-22'):
+        for kind in ('bam', 'out', 'in'):
+            for aac in (0, 1):
+                chunks.append(('inflight', dll, kind, aac, seed))
     return run_check(PROP, tier, seed, 'exploration', chunks, worker, RULE, ASSUME,
                      bounds={'deviation_bound': 1})
 
 
 def replay(rec):
+    sc = rec['scenario']
+    if sc.get('part'):
+        n, probs, trace = inflight_one(sc['dll'], sc['kind'], sc['aac'], sc['after_frame'], keep=True)
+        print("\n".join(trace))
+        if probs:
+            print("REPRODUCED: " + "; ".join(probs[:3]))
+            print("VIOLATION property=%s replay=(this file)" % PROP)
+            return 1
+        print("no violation on this tree")
+        return 0
     return c04.replay(rec, PROP, probes=True)
